@@ -398,6 +398,7 @@ func checkC19(c *Ctx) {
 	c19Suppressors(c, builders)
 	c19HeaderMerge(c)
 	c19SessionKept(c, builders)
+	c19SessionAdopted(c)
 }
 
 // c19SessionKept (R-session-header): "once one has been issued, the session id" is carried by every request — so the
